@@ -281,10 +281,15 @@ func (t *trzszTransfer) addReceivedData(buf []byte, tunnel bool) {
 }
 
 func (t *trzszTransfer) stopTransferringFiles(stopAndDelete bool) {
+	if t.stopped.Load() {
+		return
+	}
+	if stopAndDelete { // must be visible before stopped is, checkStop reads them in this order
+		t.stopAndDelete.Store(true)
+	}
 	if !t.stopped.CompareAndSwap(false, true) {
 		return
 	}
-	t.stopAndDelete.Store(stopAndDelete)
 	t.buffer.stopBuffer()
 
 	if !t.tunnelConnected {
@@ -320,10 +325,10 @@ func (t *trzszTransfer) resumeTransferringFiles() {
 }
 
 func (t *trzszTransfer) checkStop() error {
-	if t.stopAndDelete.Load() {
-		return errStoppedAndDeleted
-	}
-	if t.stopped.Load() {
+	if t.stopped.Load() { // read stopped first: stopAndDelete is final once stopped is set
+		if t.stopAndDelete.Load() {
+			return errStoppedAndDeleted
+		}
 		return errStopped
 	}
 	return nil
